@@ -121,7 +121,7 @@ type Fmt struct {
 }
 
 type Op struct {
-	T      string  `json:"t"` // open read lines write seek flush setvbuf close snap iolines
+	T      string  `json:"t"` // open read lines next write seek flush setvbuf close snap iolines
 	H      int     `json:"h,omitempty"`
 	Mode   string  `json:"mode,omitempty"`
 	Fmts   []Fmt   `json:"fmts,omitempty"`
@@ -132,6 +132,9 @@ type Op struct {
 	Off    int64   `json:"off,omitempty"`
 	VMode  string  `json:"vmode,omitempty"`
 	Size   *int64  `json:"size,omitempty"`
+	// Via "io": the same operation spelt through the io table: lines = io.input(f); io.lines(),
+	// close = io.close(f). The models do not distinguish the spellings.
+	Via string `json:"via,omitempty"`
 }
 
 type Input struct {
@@ -174,6 +177,8 @@ func coqOp(o Op) string {
 			it[i] = coqFmt(f)
 		}
 		return h("ORead " + lib.CoqList(it))
+	case "next":
+		return h(fmt.Sprintf("ONext %d", o.K))
 	case "lines":
 		return h(fmt.Sprintf("OLines %d", o.K))
 	case "write":
